@@ -51,7 +51,8 @@ translation of the text the model was written against) so that the Coq files sti
   is_nonstr_iter(v) ; for x in v   qv_iter v ; iteration over qv_items v   (v a query value)
   quote_via(v) in the last branch  quote_via (qv_scalar v)
   kw['_app_url'|'app_url'] = x     o := set_app_url o x
-  self.route_url(route_name, *elements, **kw) etc.   the model function of that helper on the canonical arguments
+  self.route_url(route_name, *elements, **kw) etc.   the model function of that helper (route_url_x, resource_url_x,
+                                   static_url_x, current_route_url_x) on the canonical arguments
   static_path's prelude `if not os.path.isabs(path): if ':' not in path: ..caller_package..`   erased (asset specs are 'pkg:path')
 """
 import ast
@@ -139,10 +140,10 @@ SAFES = {'QUERY_SAFE': 'query_safe', 'ANCHOR_SAFE': 'anchor_safe', 'PATH_SAFE': 
          'PATH_SEGMENT_SAFE': 'path_segment_safe'}
 RAISES = {'KeyError': 'EKey', 'ValueError': 'EVal'}
 HELPERS = {   # self.<helper>(...) in the *_path glue -> model call on the canonical arguments
-    'route_url': ('route_url c e rs name els %s kw', ['route_name', '*elements', '**kw']),
+    'route_url': ('route_url_x c e xs rs name els %s kw', ['route_name', '*elements', '**kw']),
     'resource_url': ('resource_url_x c e rs names els %s vroot rn', ['resource', '*elements', '**kw']),
     'static_url': ('static_url_x e rs regs path %s kw', ['path', '**kw']),
-    'current_route_url': ('current_route_url c e rs rname matched md gt els %s kw', ['*elements', '**kw']),
+    'current_route_url': ('current_route_url_x c e xs rs rname matched md gt els %s kw', ['*elements', '**kw']),
 }
 
 
@@ -811,6 +812,7 @@ TRANSLATED = ['pyramid/url.py:URLMethodsMixin._partial_application_url', 'pyrami
 RES_T = 'res text'
 
 GLUE_SIG = '(c : jcache) (e : env) (rs : list (text * pattern))'
+GLUE_SIG_X = '(c : jcache) (e : env) (xs : extinfo) (rs : list (text * pattern))'
 FUNCS = [
     dict(mod='pyramid/url.py', qual='URLMethodsMixin._partial_application_url', gen='gen_partial_application_url', ret=TEXT,
          coqret=RES_T, sig='(e : env) (scheme host port : option text) : res text',
@@ -826,7 +828,7 @@ FUNCS = [
          sig='(query : list (pval * qval)) : res text',
          params=[('query', PAIRS, 'nodefault'), (None, ERASED, True), ('quote_via', FUNC, 'quote_plus')]),
     dict(mod='pyramid/url.py', qual='URLMethodsMixin.route_path', gen='gen_route_path', ret=TEXT, coqret=RES_T,
-         sig=GLUE_SIG + ' (name : text) (els : list pval) (o : overrides) (kw : list (text * kwval)) : res text',
+         sig=GLUE_SIG_X + ' (name : text) (els : list pval) (o : overrides) (kw : list (text * kwval)) : res text',
          app_url_key='_app_url',
          params=[('e', SELF, 'nodefault'), ('route_name', NAME, 'nodefault'), ('els', ELS, Ellipsis), ('o', KWD, Ellipsis)]),
     dict(mod='pyramid/url.py', qual='URLMethodsMixin.resource_path', gen='gen_resource_path', ret=TEXT, coqret=RES_T,
@@ -840,7 +842,7 @@ FUNCS = [
          app_url_key='_app_url', prelude=static_prelude,
          params=[('e', SELF, 'nodefault'), ('path', NAME, 'nodefault'), ('o', KWD, Ellipsis)]),
     dict(mod='pyramid/url.py', qual='URLMethodsMixin.current_route_path', gen='gen_current_route_path', ret=TEXT, coqret=RES_T,
-         sig=GLUE_SIG + ' (rname matched : option text) (md : list (text * kwval)) (gt : list (pval * qval))'
+         sig=GLUE_SIG_X + ' (rname matched : option text) (md : list (text * kwval)) (gt : list (pval * qval))'
              ' (els : list pval) (o : overrides) (kw : list (text * kwval)) : res text',
          app_url_key='_app_url',
          params=[('e', SELF, 'nodefault'), ('els', ELS, Ellipsis), ('o', KWD, Ellipsis)]),
